@@ -409,6 +409,7 @@ func C17(c *core.Ctx, replay string) {
 	c.Exhaustive = only == nil
 	if only == nil {
 		c17Store(c, ctl, nil)
+		storeObservations(c)
 		c17Prune(c)
 		for _, l := range c17Stress(c) {
 			lines = append(lines, l)
